@@ -41,6 +41,16 @@ def make_dataset(conv, shape, variant):
                 return ds, CFGrid1D(ds, latitude='northing', longitude='easting'), {'face': (ny, nx)}
             from emsarray.conventions.grid import CFGrid1DTopology
             return ds, CFGrid1D(ds, topology=CFGrid1DTopology(ds, latitude='northing', longitude='easting')), {'face': (ny, nx)}
+        if variant == 'explicit-one':
+            # only the longitude needs naming (the latitude is recognisable); a longitude-like variable of another size
+            # - the axis of a second, staggered grid - comes first in the file
+            ds = builders.cf1d(ny, nx, ydim='a', xdim='b', lat_name='northing', lon_name='easting', as_coords=False,
+                               lon_attrs=dict(units='m', standard_name='projection_x_coordinate'),
+                               data_vars={'lon_u': (('c',), numpy.arange(nx + 2.0), {'units': 'degrees_east', 'standard_name': 'longitude'}),
+                                          'v': (('b', 'a'), numpy.zeros((nx, ny)))})
+            ds = ds[['lon_u'] + [n for n in ds.variables if n != 'lon_u']]
+            from emsarray.conventions.grid import CFGrid1DTopology
+            return ds, CFGrid1D(ds, topology=CFGrid1DTopology(ds, longitude='easting')), {'face': (ny, nx)}
         ydim, xdim = {'yx': ('y', 'x'), 'index': ('lat', 'lon'), 'swapnames': ('x', 'y')}[variant]
         ds = builders.cf1d(ny, nx, ydim=ydim, xdim=xdim,
                            data_vars={'v': ((xdim, ydim), numpy.zeros((nx, ny)))})
@@ -253,7 +263,7 @@ def cases(tier):
     shapes = list(itertools.product(range(1, top + 1), repeat=2))
     configs = []
     for shp in shapes:
-        for variant in ('yx', 'index', 'swapnames', 'explicit', 'explicit-topology'):
+        for variant in ('yx', 'index', 'swapnames', 'explicit', 'explicit-topology', 'explicit-one'):
             configs.append(('cf1d', shp, variant, ['face']))
         for variant in ('coords', 'plainvars', 'lonT'):
             configs.append(('cf2d', shp, variant, ['face']))
